@@ -430,6 +430,52 @@ class Parameter(object):
             If valmin is set to None and this parameter has no valmin defined.
             If valmax is set to None and this parameter has no valmax defined.
         """
+        (initial, valmin, valmax) = self._get_floating_settings(
+            initial, valmin, valmax)
+
+        self._isfixed = False
+        self._initial = initial
+        self._valmin = valmin
+        self._valmax = valmax
+        self._value = initial
+
+        return self._value
+
+    def _get_floating_settings(self, initial=None, valmin=None, valmax=None):
+        """Determines and validates the initial, minimal, and maximal value
+        this parameter would get by calling the :meth:`make_floating` method
+        with the given arguments. This parameter is not changed.
+
+        Parameters
+        ----------
+        initial : float | None
+            The initial value of the parameter. If set to `None`, the
+            parameter's current value will be used as initial value.
+        valmin : float | None
+            The minimal value the parameter's value can take.
+            If set to `None`, the parameter's current minimal value will be
+            used.
+        valmax : float | None
+            The maximal value the parameter's value can take.
+            If set to `None`, the parameter's current maximal value will be
+            used.
+
+        Returns
+        -------
+        initial : float
+            The initial value.
+        valmin : float
+            The minimal value.
+        valmax : float
+            The maximal value.
+
+        Raises
+        ------
+        ValueError
+            If valmin is set to None and this parameter has no valmin defined.
+            If valmax is set to None and this parameter has no valmax defined.
+            If the initial value is outside the range [valmin, valmax].
+        """
         if initial is None:
             initial = self._value
         if valmin is None:
@@ -447,13 +493,22 @@ class Parameter(object):
                     'argument!')
             valmax = self._valmax
 
-        self._isfixed = False
-        self.initial = initial
-        self.valmin = valmin
-        self.valmax = valmax
-        self.value = self._initial
+        initial = float_cast(
+            initial,
+            'The "initial" property must be castable to type float!')
+        valmin = float_cast(
+            valmin,
+            'The "valmin" property must be castable to type float!')
+        valmax = float_cast(
+            valmax,
+            'The "valmax" property must be castable to type float!')
 
-        return self._value
+        if (initial < valmin) or (initial > valmax):
+            raise ValueError(
+                f'The value ({initial}) of parameter "{self._name}" must be '
+                f'within the range [{valmin:g}, {valmax:g}]!')
+
+        return (initial, valmin, valmax)
 
 
 class ParameterSet(
